@@ -90,7 +90,7 @@ def execute(plan, sim):
     try:
         if plan.get("kind") == "grouped":
             from checks import c07
-            data = c07.write_grouped(cfg, stmts, cfg["groups"])
+            data = c07.write_grouped(cfg, stmts, cfg["groups"], nss)
         elif plan.get("kind") == "direct":
             data, _ = c03.write_direct(cfg, plan["ops"], sim)
         else:
